@@ -45,3 +45,25 @@ def is_leaf_observer(cx, im):
 
 def finite_flush_exempt(cx, fn):
     return FINITE_FLUSH.get(cx.label(fn))
+
+
+def type_tag(F, ti):
+    """generic-free tag of a type: ADT paths only, MutRc/MutArc/Option/Box wrappers kept"""
+    t = F.ty(F.strip_refs(ti))
+    if t['k'] == 'adt':
+        if t['p'] in ('rc::MutRc', 'rc::MutArc', 'std::option::Option', 'std::boxed::Box') and t['a']:
+            return '%s<%s>' % (t['p'].split('::')[-1], type_tag(F, t['a'][0]))
+        return t['p']
+    if t['k'] == 'param':
+        return '_'
+    if t['k'] == 'dyn':
+        return 'dyn ' + '+'.join(x['p'] for x in t['tr'][:1])
+    return t['k']
+
+
+def impl_tag(cx, im):
+    return type_tag(cx.facts, im['self'])
+
+
+def method_tag(cx, im, name):
+    return '%s::%s' % (impl_tag(cx, im), name)
